@@ -72,6 +72,9 @@ func factsC13() {
 	emitStr("f_client_Subscribe_text", normText("bus/client.go", "client", "Subscribe"))
 	emitStr("f_client_State_text", normText("bus/client.go", "client", "State"))
 	emitStr("f_client_State", c13LockSkeleton("bus/client.go", "client", "State"))
+	// client.Subscribe: who closes what and who touches the handler table, in source order (SignalsFwd.v:
+	// the cancel function only closes abort; RemoveHandler is the forwarder's, in its abort branch)
+	emitStr("f_client_Subscribe", c13LockSkeleton("bus/client.go", "client", "Subscribe", "MakeHandler", "RemoveHandler"))
 	// capacity of the subscription queue: the literal in make(chan *net.Message, N) of client.Subscribe
 	capQ := 0
 	if f, fd := funcDecl("bus/client.go", "client", "Subscribe"); fd != nil {
